@@ -8,6 +8,7 @@ import (
 	"io"
 	"os"
 	"runtime"
+	"sort"
 	"strconv"
 )
 
@@ -118,7 +119,15 @@ func NewZlispWithFuncs(funcs map[string]ZlispUserFunction) *Zlisp {
 	env.AddGlobal("null", SexpNull)
 	env.AddGlobal("nil", SexpNull)
 
-	for key, function := range funcs {
+	// intern the builtin names in a fixed order: symbol numbers decide how
+	// symbols compare and what (symnum ...) returns, and Go's map order is random.
+	keys := make([]string, 0, len(funcs))
+	for key := range funcs {
+		keys = append(keys, key)
+	}
+	sort.Strings(keys)
+	for _, key := range keys {
+		function := funcs[key]
 		sym := env.MakeSymbol(key)
 		env.builtins[sym.number] = MakeUserFunction(key, function)
 		env.AddFunction(key, function)
